@@ -21,38 +21,51 @@ TECHNIQUE = "static analysis: abstract interpretation over exact symbolic ration
 
 
 def dispatch_exhaustive(prog, rep):
-    rid = rep.rule("C10.solver-dispatch", "solver names accepted by the validators = branches of the dispatch in _compute_cohorts_and_inflow", floor=2)
+    """the solver names accepted by the StockDrivenDSM validator and by StockDefinition are the same set, contain 'manual' and
+    'lapack', and compute() runs for every accepted name (decided by evaluating constructor / validators / compute on a small
+    grid for every candidate name: every string literal of stocks.py and mfa_definition.py plus a nonsense name)"""
+    from ..stockworld import SW, make_lifetime
+    from ..stockcases import build_stock
+    from ..interp import Interp, run_guarded
+    rid = rep.rule("C10.solver-dispatch", "solver names accepted by StockDrivenDSM = names accepted by StockDefinition >= {manual, lapack}; every accepted name computes", floor=4)
+    cands = {"manual", "lapack", "no-such-solver", ""}
+    for mod in ("stocks.py", "mfa_definition.py"):
+        mi = prog.modules.get(mod)
+        if mi is None:
+            raise AnalysisError(f"module {mod} not found")
+        for n in ast.walk(mi.tree):
+            if isinstance(n, ast.Constant) and isinstance(n.value, str) and 0 < len(n.value) <= 12 and n.value.isidentifier():
+                cands.add(n.value)
+    sd_cls = prog.cls("StockDrivenDSM")
+    accepted_sd, accepted_def, runs = set(), set(), set()
+    for name in sorted(cands):
+        sw = SW(prog, 3, ())
 
-    def literals_in(fn, varname):
-        out = set()
-        for n in ast.walk(fn.node):
-            if isinstance(n, ast.Compare) and any(varname in ast.unparse(x) for x in [n.left] + n.comparators):
-                for c in [n.left] + n.comparators:
-                    for e in ast.walk(c):
-                        if isinstance(e, ast.Constant) and isinstance(e.value, str):
-                            out.add(e.value)
-        return out
-    sd = prog.cls("StockDrivenDSM")
-    disp, val_by_cls = set(), {}
-    for cls_name in ("StockDrivenDSM", "StockDefinition"):
-        for c in prog.mro(prog.cls(cls_name)):
-            for f in c.methods.values():
-                lits = literals_in(f, "solver")
-                if not lits:
-                    continue
-                if f.validator_kind:
-                    val_by_cls.setdefault(cls_name, set()).update(lits)
-                elif cls_name == "StockDrivenDSM":
-                    disp |= lits
-    if not disp or set(val_by_cls) != {"StockDrivenDSM", "StockDefinition"}:
-        raise AnalysisError("solver dispatch / validators not found (no comparison of `solver` with string literals)")
-    for cls in ("StockDrivenDSM", "StockDefinition"):
-        val = val_by_cls[cls]
-        ok = val == disp and len(val) >= 1
-        rep.oblige(rid, ok, where=f"{cls} solver validator", what=f"accepted {sorted(val)} / dispatched {sorted(disp)}")
+        def mk(name=name, sw=sw):
+            lm, _, _ = make_lifetime(sw, "NormalLifetime", "number")
+            return build_stock(sw, "StockDrivenDSM", lm, stock=sw.driver("st"), solver=name)
+        kind, st = run_guarded(mk)
+        if kind == "ok":
+            accepted_sd.add(name)
+            k2, r2 = run_guarded(lambda: sw.it.call_method(st, "compute"))
+            if k2 == "ok":
+                runs.add(name)
+        it = Interp(prog)
+        kd, d = run_guarded(lambda: it.construct(prog.cls("StockDefinition"), [], dict(name="s", dim_letters=("t",), subclass=sd_cls,
+                                                                                         lifetime_model_class=prog.cls("NormalLifetime"), solver=name)))
+        if kd == "ok":
+            accepted_def.add(name)
+    checks = [
+        ("StockDrivenDSM solver validator", {"manual", "lapack"} <= accepted_sd, f"StockDrivenDSM accepts {sorted(accepted_sd)}; 'manual' and 'lapack' must be among them"),
+        ("StockDefinition solver validator", accepted_def == accepted_sd, f"StockDefinition accepts solvers {sorted(accepted_def)} but StockDrivenDSM accepts {sorted(accepted_sd)}"),
+        ("StockDrivenDSM._compute_cohorts_and_inflow", runs == accepted_sd, f"accepted solver name(s) {sorted(accepted_sd - runs)} cannot be computed (no branch of the dispatch)"),
+        ("candidates", len(cands) >= 4, "no candidate names"),
+    ]
+    for where, ok, msg in checks:
+        rep.oblige(rid, ok, where=where, what=f"candidates {len(cands)}: accepted by the model {sorted(accepted_sd)}, by the definition {sorted(accepted_def)}, computable {sorted(runs)}")
         if not ok:
-            f = next(m for c in prog.mro(prog.cls(cls)) for m in c.methods.values() if m.validator_kind and literals_in(m, "solver"))
-            rep.add(Finding("C10", rid, f.module, f.qual, f"def {f.name}", f"{cls} accepts solvers {sorted(val)} but the stock-driven model dispatches on {sorted(disp)}", line=f.node.lineno))
+            f = prog.method("StockDrivenDSM", "compute")
+            rep.add(Finding("C10", rid, f.module, where, where, msg, line=f.node.lineno))
 
 
 def run(prog, rep):
